@@ -28,6 +28,7 @@ func runC06(run *common.Run) {
 	if run.WantSub("lin") {
 		c06Lin(run)
 	}
+	run.ScanRaceLogs("github.com/fullstorydev/emulators/bigtable")
 }
 
 // ---- part 1: failure atomicity -------------------------------------------------------------
@@ -117,13 +118,18 @@ func c06Atomic(run *common.Run) {
 								failed = !drive.MutateRow(srv.Data, table, "row", list).OK()
 							case "MutateRows":
 								good := []model.Mut{{Kind: model.SetCell, Fam: "f2", Qual: "other", TS: 1000, Val: fmt.Sprint("v", idx)}}
-								st, per, mal := drive.MutateRows(srv.Data, table, []drive.Entry{{Key: "other", Muts: good}, {Key: "row", Muts: list}, {Key: "other", Muts: good[:1]}})
-								if !st.OK() || mal != "" || !per[0].OK() || !per[2].OK() {
+								// the failing entry is followed by a valid entry for the SAME row and by entries for another row:
+								// nothing of the failed entry may leak into what the later entries store
+								after := []model.Mut{{Kind: model.SetCell, Fam: "f2", Qual: "after", TS: 1000, Val: fmt.Sprint("a", idx)}}
+								st, per, mal := drive.MutateRows(srv.Data, table, []drive.Entry{{Key: "other", Muts: good}, {Key: "row", Muts: list}, {Key: "row", Muts: after}, {Key: "other", Muts: good[:1]}})
+								if !st.OK() || mal != "" || !per[0].OK() || !per[2].OK() || !per[3].OK() {
 									run.Violation("atomic", idx, fmt.Sprintf("valid sibling entries not acknowledged: %s %v %s | %s", st, per, mal, desc), desc)
 									continue
 								}
 								_, nr := m.Apply("other", good, gen.BaseClock)
 								m.Commit("other", nr)
+								_, nr = m.Apply("row", after, gen.BaseClock)
+								m.Commit("row", nr)
 								failed = !per[1].OK()
 							case "CAM-true", "CAM-false":
 								want := rpc == "CAM-true"
